@@ -11,8 +11,13 @@
 import MW.Model.Proto
 import MW.Gen.Proto
 import MW.Lemmas.Proto
+import MW.Spec.Live
+import MW.Lemmas.ProtoLive
+import MW.Lemmas.ProtoStop
+import MW.Lemmas.ProtoLiveEx
+import MW.Lemmas.ProtoLive2
 namespace MW.Props.C20
-open MW.Model.Proto MW.Model.Proto.Skel MW.Lemmas.Proto
+open MW.Model.Proto MW.Model.Proto.Skel MW.Lemmas.Proto MW.Spec.Live
 
 /-! ### the generated skeleton is the one the model was written for -/
 
@@ -132,10 +137,9 @@ theorem queue_never_drops (sh : Shape) (c : Cfg) (hc : c.busy < c.cap) (s : St) 
   have h8 := hi.chk
   cases hap : s.ap <;> simp [hap, bound] at h8 <;> omega
 
-/-- progress (PARTIAL – ranking-function lemmas only; the temporal statement "every announced tip is
-    eventually processed and every accepted task eventually finishes under weak fairness" is NOT
-    formalised): each follower step strictly decreases the follower's pending work and no other step of the
-    system increases it; no step of the system increases the number of pending tasks. -/
+/-- progress_partial (round 3: the ranking-function lemmas; superseded by `progress` below, kept): each follower
+    step strictly decreases the follower's pending work and no other step of the system increases it; no step of
+    the system increases the number of pending tasks. -/
 theorem progress_partial (sh : Shape) (c : Cfg) (s s' : St) (l : Label) (hl : l.core = true)
     (hf : fire sh c l s = some s') :
     (Label.follower l = true → followerWork s' < followerWork s) ∧
@@ -143,13 +147,158 @@ theorem progress_partial (sh : Shape) (c : Cfg) (s s' : St) (l : Label) (hl : l.
     workerPending s' ≤ workerPending s :=
   ⟨fun h => follower_step_decreases h hf, fun h => others_keep_followerWork hl h hf, core_keeps_workerPending hl hf⟩
 
-/-- the full statement, kept type-checked -/
+/-! ### liveness over infinite runs (MW.Spec.Live)
+
+A run is ANY infinite sequence of states of `fire .fixed c` with the labels taken (`none` = stutter), from an
+initial state: `IsRun`. The history observers `obs run ls i : G` are functions of the labels taken before `i`:
+`annB` / `procB` count the blocks announced (queued at start + `eBlk`) and the blocks whose
+processConnectedBlock returned (`hDoneBlk`) – the queue is FIFO, so the k-th announced block has been processed
+exactly when `procB ≥ k`; tasks are numbered in acceptance order (`next` = number accepted so far), `q` is the
+FIFO task queue, `hand` the worker's task, `fin` the finished ones, `used t` the database rounds of task `t`
+that ended "not finished" (`wCommitI .more / .errRetry`, `wCommitR .more / .err`), `lost` the tasks dropped at
+a full queue. `FairRun`: every step of follower / worker / stop sequence weakly fair, the three data branches of
+the follower's outer select (`hTakeBlk`, `hTakeTx`, `sus`) strongly fair. -/
+
+/-- PROGRESS. In every run of the current skeleton that is fair (`FairRun`), in which no stop is requested
+    ("while the wallet runs") and every task needs finitely many database rounds (task `t` at most `B t`
+    unfinished rounds – the explicit finiteness parameter: by design a failing round is retried without bound):
+    (a) every block announced by instant `i` has been processed by some instant `j` (per item: the k-th
+        announced block for every k ≤ annB i – not merely "the queue is empty at some time", which fails when
+        producers keep announcing), likewise every unconfirmed transaction;
+    (b) every import / removal accepted by instant `i` has finished by some instant `j`;
+    (c) no accepted task is ever lost: each is in the queue, in the worker's hands or finished. -/
+theorem progress (c : Cfg) (hc : c.busy < c.cap) (B : Nat → Nat) (run : Nat → St) (ls : Nat → Option Label)
+    (hr : IsRun c run ls) (hf : FairRun c run ls) (hnq : ∀ i, (run i).quit = false)
+    (hbud : ∀ i t, (obs run ls i).used t ≤ B t) :
+    (∀ i, ∃ j, i ≤ j ∧ (obs run ls i).annB ≤ (obs run ls j).procB) ∧
+    (∀ i, ∃ j, i ≤ j ∧ (obs run ls i).annT ≤ (obs run ls j).procT) ∧
+    (∀ i k, k < (obs run ls i).next → ∃ j, i ≤ j ∧ k ∈ (obs run ls j).fin) ∧
+    (∀ i, (obs run ls i).lost = [] ∧
+      ∀ k, k < (obs run ls i).next → Pend k (obs run ls i) ∨ k ∈ (obs run ls i).fin) :=
+  MW.Lemmas.ProtoLive.progress_run hc B hr hf hnq hbud
+
+/-- FOLLOWER PROGRESS without any assumption on the tasks: however often the worker's tasks are retried (no budget
+    hypothesis), every announced block and every unconfirmed transaction is eventually processed – the follower
+    is suspended for ONE database transaction of the worker at a time. -/
+theorem follower_progress (c : Cfg) (hc : c.busy < c.cap) (run : Nat → St) (ls : Nat → Option Label)
+    (hr : IsRun c run ls) (hf : FairRun c run ls) (hnq : ∀ i, (run i).quit = false) :
+    (∀ i, ∃ j, i ≤ j ∧ (obs run ls i).annB ≤ (obs run ls j).procB) ∧
+    (∀ i, ∃ j, i ≤ j ∧ (obs run ls i).annT ≤ (obs run ls j).procT) :=
+  MW.Lemmas.ProtoLive.follower_run hc hr hf hnq
+
+/-- … for the configuration of the working tree (`Shape.current = Shape.fixed` by `shape_current`) -/
+theorem progress_current (n : Nat) (B : Nat → Nat) (run : Nat → St) (ls : Nat → Option Label)
+    (hr : IsRun (Cfg.current n) run ls) (hf : FairRun (Cfg.current n) run ls) (hnq : ∀ i, (run i).quit = false)
+    (hbud : ∀ i t, (obs run ls i).used t ≤ B t) :
+    (∀ i, ∃ j, i ≤ j ∧ (obs run ls i).annB ≤ (obs run ls j).procB) ∧
+    (∀ i k, k < (obs run ls i).next → ∃ j, i ≤ j ∧ k ∈ (obs run ls j).fin) :=
+  have h := progress (Cfg.current n) (cfg_current_ok n) B run ls hr hf hnq hbud
+  ⟨h.1, h.2.2.1⟩
+
+/-- the hypotheses of `progress` are met by a concrete run with work in it: one import queued and one block
+    announced at the start (`okRun`: wTakeImp, hTakeBlk, hDoneBlk, sus, wCommitI .fin, res, then idle); budget 0;
+    and the conclusions are not vacuous there: task 0 and block 1 are pending at instant 0, done at instant 6 -/
+example : IsRun cfg4 MW.Lemmas.ProtoLiveEx.okRun MW.Lemmas.ProtoLiveEx.okLab ∧
+    FairRun cfg4 MW.Lemmas.ProtoLiveEx.okRun MW.Lemmas.ProtoLiveEx.okLab ∧
+    (∀ i, (MW.Lemmas.ProtoLiveEx.okRun i).quit = false) ∧
+    (∀ i t, (obs MW.Lemmas.ProtoLiveEx.okRun MW.Lemmas.ProtoLiveEx.okLab i).used t ≤ 0) ∧
+    (obs MW.Lemmas.ProtoLiveEx.okRun MW.Lemmas.ProtoLiveEx.okLab 0).next = 1 ∧
+    (obs MW.Lemmas.ProtoLiveEx.okRun MW.Lemmas.ProtoLiveEx.okLab 0).annB = 1 ∧
+    0 ∈ (obs MW.Lemmas.ProtoLiveEx.okRun MW.Lemmas.ProtoLiveEx.okLab 6).fin ∧
+    (obs MW.Lemmas.ProtoLiveEx.okRun MW.Lemmas.ProtoLiveEx.okLab 6).procB = 1 :=
+  ⟨MW.Lemmas.ProtoLiveEx.ok_isRun, MW.Lemmas.ProtoLiveEx.ok_fair, MW.Lemmas.ProtoLiveEx.ok_quit,
+   MW.Lemmas.ProtoLiveEx.ok_used, MW.Lemmas.ProtoLiveEx.ok_content⟩
+
+/-- the select fairness in `FairRun` is NECESSARY: there is a run (one block queued, a never-ending flood of
+    unconfirmed transactions, the follower's select always takes the transaction) in which every step of
+    follower / worker / stop sequence is weakly fair, the other two select branches are even strongly fair, no
+    stop is requested, no task exists – and the announced block is never processed. -/
+theorem weak_fairness_not_enough : ∃ (c : Cfg) (run : Nat → St) (ls : Nat → Option Label), c.busy < c.cap ∧
+    IsRun c run ls ∧ (∀ l : Label, l.core = true → WF (fire .fixed c) run ls l) ∧
+    SF (fire .fixed c) run ls .sus ∧ SF (fire .fixed c) run ls .hTakeTx ∧
+    (∀ i, (run i).quit = false) ∧ (∀ i t, (obs run ls i).used t ≤ 0) ∧
+    ¬ ∃ j, (obs run ls 0).annB ≤ (obs run ls j).procB :=
+  MW.Lemmas.ProtoLiveEx.weak_not_enough
+
+/-- strong fairness of the hand-shake branch `sus` is NECESSARY as well: weak fairness everywhere, the block and
+    transaction branches strongly fair, no stop request, no retries – and a flood of blocks keeps the follower
+    from ever taking the worker's suspend: the accepted import never finishes ("follower and worker never block
+    each other permanently" needs the select to be fair) -/
+theorem sus_fairness_needed : ∃ (c : Cfg) (run : Nat → St) (ls : Nat → Option Label), c.busy < c.cap ∧
+    IsRun c run ls ∧ (∀ l : Label, l.core = true → WF (fire .fixed c) run ls l) ∧
+    SF (fire .fixed c) run ls .hTakeBlk ∧ SF (fire .fixed c) run ls .hTakeTx ∧
+    (∀ i, (run i).quit = false) ∧ (∀ i t, (obs run ls i).used t ≤ 0) ∧
+    0 < (obs run ls 0).next ∧ ∀ j, 0 ∉ (obs run ls j).fin :=
+  MW.Lemmas.ProtoLiveEx.sus_fairness_needed
+
+/-- the budget hypothesis of `progress` is NECESSARY: a fair run without stop request in which an accepted import
+    never finishes (every database round ends "more": the rounds are not bounded) -/
+theorem budget_needed : ∃ (c : Cfg) (run : Nat → St) (ls : Nat → Option Label), c.busy < c.cap ∧ IsRun c run ls ∧
+    FairRun c run ls ∧ (∀ i, (run i).quit = false) ∧ 0 < (obs run ls 0).next ∧ ∀ j, 0 ∉ (obs run ls j).fin :=
+  MW.Lemmas.ProtoLiveEx.budget_needed
+
+/-- the round-3 formulation of the full statement, kept type-checked: it is FALSE (`C20_full_progress_false`) –
+    weak fairness does not force the select to take the block branch, and "followerWork = 0 at some later
+    instant" fails anyway while producers keep announcing. `progress` is the corrected statement. -/
 def C20_full_progress : Prop :=
   ∀ (c : Cfg) (run : Nat → St), c.busy < c.cap → Init c (run 0) →
     (∀ i, ∃ l, fire .fixed c l (run i) = some (run (i + 1))) →
     -- weak fairness: a core label enabled from some point on is eventually taken
     (∀ l, l.core = true → ∀ i, (∀ j, i ≤ j → (fire .fixed c l (run j)).isSome) → ∃ j, i ≤ j ∧ fire .fixed c l (run j) = some (run (j + 1))) →
     ∀ i, (∀ j, (run j).quit = false) → ∃ j, i ≤ j ∧ followerWork (run j) = 0
+
+theorem C20_full_progress_false : ¬ C20_full_progress := MW.Lemmas.ProtoLiveEx.old_progress_false
+
+/-- STOP-SIDE LIVENESS (the infinite-run form of stop_terminates / stop_completes). In every run in which each
+    step of follower, worker and stop sequence is weakly fair (no select fairness needed: after close(quit) every
+    step decreases `stopMeasure`) and no API call pushes a task after the stop request (loader.go stops the API
+    server before the wallet manager), a stop request at any instant is followed by the final state: Stop has
+    returned, both goroutines have returned, the database is closed. -/
+theorem stop_live (c : Cfg) (hc : c.busy < c.cap) (run : Nat → St) (ls : Nat → Option Label) (hr : IsRun c run ls)
+    (hwf : ∀ l : Label, l.core = true → WF (fire .fixed c) run ls l)
+    (hapi : ∀ j, (run j).quit = true → ls j ≠ some .aPush) :
+    ∀ i, (run i).quit = true → ∃ j, i ≤ j ∧ Final (run j) ∧ (run j).dbOpen = false :=
+  MW.Lemmas.ProtoStop.stop_live hc hr hwf hapi
+
+/-- the quiet-API hypothesis of `stop_live` is NECESSARY under weak fairness: if API calls keep queueing removals
+    after the stop request and the worker's select keeps preferring the queue to quit, Stop never returns -/
+theorem stop_needs_quiet_api : ∃ (c : Cfg) (run : Nat → St) (ls : Nat → Option Label), c.busy < c.cap ∧
+    IsRun c run ls ∧ (∀ l : Label, l.core = true → WF (fire .fixed c) run ls l) ∧ (run 1).quit = true ∧
+    ∀ j, ¬ Final (run j) :=
+  MW.Lemmas.ProtoLiveEx.stop_needs_quiet_api
+
+/-- the hypotheses of `stop_live` are met by a concrete run with a stop request (a task still queued): eStop,
+    hQuit, wQuit, sWait, sClose, then nothing -/
+example : IsRun cfg4 MW.Lemmas.ProtoLiveEx.stopRun MW.Lemmas.ProtoLiveEx.stopLab ∧
+    (∀ l : Label, l.core = true → WF (fire .fixed cfg4) MW.Lemmas.ProtoLiveEx.stopRun MW.Lemmas.ProtoLiveEx.stopLab l) ∧
+    (∀ j, (MW.Lemmas.ProtoLiveEx.stopRun j).quit = true → MW.Lemmas.ProtoLiveEx.stopLab j ≠ some .aPush) ∧
+    (MW.Lemmas.ProtoLiveEx.stopRun 1).quit = true :=
+  ⟨MW.Lemmas.ProtoLiveEx.stop_isRun, MW.Lemmas.ProtoLiveEx.stop_wf, fun j _ => MW.Lemmas.ProtoLiveEx.stop_noPush j, rfl⟩
+
+/-- the round-3 intent, with the hypothesis it needs: when the producers are quiet from some instant on, the
+    follower's queues drain and `followerWork` is 0 from some instant on -/
+theorem follower_drains (c : Cfg) (hc : c.busy < c.cap) (run : Nat → St) (ls : Nat → Option Label)
+    (hr : IsRun c run ls) (hf : FairRun c run ls) (hnq : ∀ i, (run i).quit = false) (i0 : Nat)
+    (hquiet : ∀ j, i0 ≤ j → ls j ≠ some .eBlk ∧ ls j ≠ some .eTx) :
+    ∃ j, i0 ≤ j ∧ ∀ j', j ≤ j' → followerWork (run j') = 0 :=
+  MW.Lemmas.ProtoLive2.follower_drains hc hr hf hnq i0 hquiet
+
+/-- LIFE CYCLE (no global "no stop request" hypothesis): in a fair run with bounded task rounds and an API that is
+    quiet after the stop request, everything announced / accepted by instant `i` is processed / finished at some
+    later instant – or a stop has been requested, and then the run reaches the final state, database closed. -/
+theorem life_cycle (c : Cfg) (hc : c.busy < c.cap) (B : Nat → Nat) (run : Nat → St) (ls : Nat → Option Label)
+    (hr : IsRun c run ls) (hf : FairRun c run ls) (hbud : ∀ i t, (obs run ls i).used t ≤ B t)
+    (hapi : ∀ j, (run j).quit = true → ls j ≠ some .aPush) (i : Nat) :
+    ((∃ j, i ≤ j ∧ (obs run ls i).annB ≤ (obs run ls j).procB) ∧
+     (∀ k, k < (obs run ls i).next → ∃ j, i ≤ j ∧ k ∈ (obs run ls j).fin)) ∨
+    ∃ j, i ≤ j ∧ Final (run j) ∧ (run j).dbOpen = false :=
+  MW.Lemmas.ProtoLive2.life_cycle hc B hr hf hbud hapi i
+
+/-- the extra hypotheses of `follower_drains` and `life_cycle` hold in the run `okRun` above (no producer step at
+    all; no stop request, hence no API push after one) -/
+example : (∀ j, 0 ≤ j → MW.Lemmas.ProtoLiveEx.okLab j ≠ some .eBlk ∧ MW.Lemmas.ProtoLiveEx.okLab j ≠ some .eTx) ∧
+    (∀ j, (MW.Lemmas.ProtoLiveEx.okRun j).quit = true → MW.Lemmas.ProtoLiveEx.okLab j ≠ some .aPush) :=
+  ⟨fun j _ => MW.Lemmas.ProtoLiveEx.ok_quiet j, MW.Lemmas.ProtoLiveEx.ok_noPush⟩
 
 -- non-vacuity
 example : Reach .fixed cfg4 { nt := 2, nb := 5 } := .init (by simp [Init, cfg4])
